@@ -15,11 +15,13 @@ import json
 import os
 import random
 import time
+from fractions import Fraction
 
 import vlib
 
 PROP = "C17"
 SRC = os.path.join(vlib.VERIF, "harness", "c17", "main.cpp")
+SRC2 = [os.path.join(vlib.VERIF, "harness", "c17", "featjobs.cpp")]
 
 
 # ---------------------------------------------------------------------------------------------
@@ -139,12 +141,80 @@ def gen_run_cases(rng, count):
         w = gen_workers(rng, len(sel))
         if rng.random() < 0.5:
             w = rng.choice([2, 2, 3, 4, 5, 8])
-        ns = 0 if rng.random() < 0.15 else 1
-        ncb = rng.randrange(2)
-        reps = rng.choice([1, 1, 1, 2, 3])
+        ns = rng.choice([0, 1, 1, 1, 1, 1, 2, 2])      # 2 = jobs with and without scatter alternate on one assembler
+        ncb = rng.choice([0, 1, 1, 2])
+        reps = rng.choice([1, 1, 2, 3, 3, 4, 5])
         pseed = 0 if rng.random() < 0.1 else rng.randrange(1, 1 << 30)
-        out.append("run %s %d %d %d %d" % (fmt_input(s, w, nvt, cells, sel), ns, ncb, reps, pseed))
+        line = "run %s %d %d %d %d" % (fmt_input(s, w, nvt, cells, sel), ns, ncb, reps, pseed)
+        if sel and ns == 1 and rng.random() < 0.2:
+            # error path: the task of the first job throws in assemble / scatter / finish / combine at one cell;
+            # the job must still terminate and the following jobs on the same assembler must be exact again
+            where = rng.choice([1, 2, 3, 4] if ncb in (1, 2) else [1, 2, 3])
+            line += " %d %d" % (where, rng.choice(sel))
+        out.append(line)
     return out
+
+
+def gen_fjob_cases(rng, count):
+    """real FEAT jobs (Laplace matrix / force vector / discrete function integral) on 1D meshes"""
+    out = []
+    while len(out) < count:
+        kind, nvt, cells = gen_mesh(rng, n=rng.choice([1, 2, 3, 5, 8, 9, 12, 16, 20, 24, 32, 48]))
+        if any(len(c) != 2 for c in cells):
+            continue
+        cells = [sorted(c) for c in cells]
+        sel = gen_subset(rng, len(cells))
+        s = rng.choice([0, 2, 2, 3, 4, 4])
+        w = rng.choice([0, 1, 2, 2, 3, 4, 5, 8, len(sel) + 2])
+        out.append("fjob %s %d %d %d" % (fmt_input(s, w, nvt, cells, sel), rng.randrange(3), rng.choice([1, 2, 3]),
+                                         rng.randrange(1 << 30)))
+    return out
+
+
+def oracle_fjob(case, out):
+    c = Tk(case.split(), 1)
+    s, w, nvt, cells, sel = c.input()
+    kind, reps, pseed = c.nat(), c.nat(), c.nat()
+    if is_abnormal(out) or not out.startswith("J "):
+        return "real FEAT job %d with strategy %d, %d requested workers on %d cells ended with %s" % (kind, s, w, len(sel), out[:80])
+    exact = {}
+
+    def add(i, j, v):
+        exact[(i, j)] = exact.get((i, j), Fraction(0)) + v
+    for cidx in sel:
+        a, b = cells[cidx]
+        h = Fraction(b - a)
+        if kind == 0:
+            add(a, a, 1 / h), add(b, b, 1 / h), add(a, b, -1 / h), add(b, a, -1 / h)
+        elif kind == 1:
+            add(a, 0, 3 * h / 2), add(b, 0, 3 * h / 2)
+        else:
+            add(0, 0, h * (a + 1 + b + 1) / 2)
+    try:
+        t = out.split()
+        nw, nrep = int(t[1]), int(t[2])
+        p = 3
+        for r in range(nrep):
+            n = int(t[p]); p += 1
+            got = {}
+            for _ in range(n):
+                i, j, v = int(t[p]), int(t[p + 1]), float(t[p + 2]); p += 3
+                got[(i, j)] = got.get((i, j), 0.0) + v
+            for key in set(got) | set(exact):
+                e = exact.get(key, Fraction(0))
+                g = got.get(key, 0.0)
+                if abs(Fraction(g) - e) > Fraction(1, 10 ** 10) * (1 + abs(e)):
+                    return "job %d, entry %s: threaded result %r, single-threaded exact value %s" % (r, key, g, e)
+        if nrep != reps or p != len(t):
+            return "malformed output"
+    except (IndexError, ValueError) as e:
+        return "unparsable output (%s)" % e
+    return None
+
+
+def describe_fjob(case):
+    t = case.split()
+    return ["strategy:" + t[1], "feat-job:" + {"0": "laplace-matrix", "1": "force-vector", "2": "function-integral"}[t[-3]]]
 
 
 def path_input(s, w, n, sel=None):
@@ -166,6 +236,18 @@ CORPUS_DIST = [
                         list(range(27))),
 ]
 CORPUS_RUN = [
+    # error path: the first job's task throws (assemble / scatter / finish / combine), the following jobs are normal
+    "run " + path_input(2, 3, 12) + " 1 1 3 43 1 9",
+    "run " + path_input(2, 3, 12) + " 1 1 2 47 2 4",
+    "run " + path_input(3, 4, 16) + " 1 1 2 53 3 0",
+    "run " + path_input(4, 3, 12) + " 1 1 3 59 2 4",
+    "run " + path_input(4, 3, 12) + " 1 1 2 61 4 7",
+    "run " + path_input(2, 2, 9) + " 1 1 2 67 4 8",
+    # repeated jobs on one assembler (fences persist: a layered job leaves them open, the next job must re-close them)
+    "run " + path_input(2, 3, 12) + " 1 1 4 29",
+    "run " + path_input(2, 3, 12) + " 2 2 5 31",
+    "run " + path_input(4, 3, 12) + " 2 1 4 37",
+    "run " + path_input(3, 4, 16) + " 2 2 3 41",
     # F-C17-1 (fixed in /repo, 19866811e): colored + job without scatter + >= 2 workers used to deadlock
     "run 4 3 9 8 2 0 1 2 1 2 2 2 3 2 3 4 2 4 5 2 5 6 2 6 7 2 7 8 8 0 1 2 3 4 5 6 7 0 1 1 5",
     "run " + path_input(4, 2, 14) + " 0 1 2 183796311",
@@ -299,7 +381,15 @@ def parse_trace(case):
     c = Tk(t, 1)
     inp = c.input()
     ns, ncb, reps, pseed = c.nat(), c.nat(), c.nat(), c.nat()
-    assert c.tok() == "|"
+    bar = c.tok()
+    fail = None
+    if bar != "|":
+        fail = (int(bar), c.nat())
+        if fail[0] == 0:
+            fail = None
+        bar = c.tok()
+    assert bar == "|"
+    parse_trace.fail = fail
     return inp, ns, ncb, reps, pseed, t[c.p:]
 
 
@@ -347,6 +437,11 @@ def scan_events(cells, evs):
             if comb != t:
                 return "event %d: combine leave without enter" % k, overlapped
             comb = None
+        elif kind == 13:
+            # the task threw: the thread leaves whatever critical section it was in
+            active.pop(t, None)
+            if comb == t:
+                comb = None
     if active or comb is not None:
         return "log ends inside a critical section", overlapped
     return None, overlapped
@@ -383,14 +478,45 @@ def oracle_trace(case, out):
         return "unparsable run output (%s)" % e
     if len(runs) != reps:
         return "number of repetitions differs"
-    exp_vec = [0] * nvt
-    if ns:
-        for cidx in sel:
-            for k, v in enumerate(cells[cidx]):
-                exp_vec[v] += (cidx + 1) * (k + 1)
-    exp_int = sum(7 * (cidx + 1) for cidx in sel) if ncb else 0
+    ns_mode, ncb_mode = ns, ncb
+    fail = parse_trace.fail
+    open_fences = set()       # state of the assembler's fences, carried from job to job (hook H2 log)
     for r, (seqs, vec, integral, ncomb, hooks, evs) in enumerate(runs):
+        ns = (r % 2 == 0) if ns_mode == 2 else bool(ns_mode)
+        ncb = (r % 2 == 0) if ncb_mode == 2 else bool(ncb_mode)
+        exp_vec = [0] * nvt
+        if ns:
+            for cidx in sel:
+                for k, v in enumerate(cells[cidx]):
+                    exp_vec[v] += (cidx + 1) * (k + 1)
+        exp_int = sum(7 * (cidx + 1) for cidx in sel) if ncb else 0
+        failing = fail is not None and r == 0
+        # every job must start its protocol with all fences closed, whatever the previous job left open
+        started = False
+        for (k, t, a) in evs:
+            if k in (8, 10):
+                continue
+            if not started and not (k == 2 and t == 0):
+                started = True
+                if open_fences:
+                    return "job %d starts its protocol while fence(s) %s are still open from the previous job" % (
+                        r, sorted(open_fences))
+            if k in (0, 11):
+                open_fences.add(a)
+            elif k == 2:
+                open_fences.discard(a)
         done = sorted(x for q in seqs for x in q)
+        if failing:
+            # error path: the job has terminated (we have its output); nothing may be assembled twice or outside the
+            # selection, the critical sections stay exclusive; the partial results are not specified
+            if len(set(done)) != len(done) or not set(done) <= set(sel):
+                return "repetition 0 (failing job): assembled cells %s" % done
+            if not any(k == 13 for (k, t, a) in evs) and fail[1] in sel and fail[0] != 4:
+                return "repetition 0: the injected failure at cell %d was never reached, but the job ended" % fail[1]
+            err, _ = scan_events(cells, evs)
+            if err:
+                return "repetition 0 (failing job): %s" % err
+            continue
         if done != sorted(sel):
             return "repetition %d: assembled cells %s, selected %s (every selected cell exactly once)" % (r, done, sorted(sel))
         if vec != exp_vec:
@@ -448,13 +574,18 @@ def describe_dist(case):
 def describe_trace(case):
     try:
         (s, w, nvt, cells, sel), ns, ncb, reps, pseed, impl = parse_trace(case)
-        keys = ["strategy:%d" % s, "scatter:%d combine:%d" % (ns, ncb), "reps:%d" % reps, "cells-selected:" + bucket(len(sel))]
+        keys = ["strategy:%d" % s, "scatter:%s combine:%s" % ("alt" if ns == 2 else ns, "alt" if ncb == 2 else ncb),
+                "jobs-per-assembler:%d" % reps, "cells-selected:" + bucket(len(sel))]
         if impl and impl[0] == "R":
             nw, runs = parse_reps(impl)
             keys.append("workers-used:%d" % nw if nw < 5 else "workers-used:5+")
             keys.append("hooks:%d" % runs[0][4] if runs else "hooks:?")
             if any(scan_events(cells, r[5])[1] for r in runs):
                 keys.append("two-scatters-overlapped-in-time")
+            if parse_trace.fail:
+                keys.append("task-throws-in:" + {1: "assemble", 2: "scatter", 3: "finish", 4: "combine"}[parse_trace.fail[0]])
+                if any(k == 12 for r in runs[:1] for (k, t, a) in r[5]):
+                    keys.append("okay=false-cascaded-through-a-fence-wait")
             if any(blocked_waits(r[5]) for r in runs):
                 keys.append("fence-wait-blocked")
         return keys
@@ -485,7 +616,7 @@ def main(argv):
     rng = random.Random(args.seed * 1000003 + 17)
     thorough = args.tier == "thorough"
     lean = None if args.no_lean else vlib.lean_check(PROP, leanchecker=thorough)
-    binary, err = vlib.build_harness("c17", SRC, extra_flags=("-pthread",))
+    binary, err = vlib.build_harness("c17", SRC, extra_flags=("-pthread",), extra_srcs=SRC2)
     if binary is None:
         v = [{"property": PROP, "kind": "harness-build-failure", "detail": err, "failing_input": None,
               "broken": "harness c17 does not compile against the current tree"}]
@@ -499,7 +630,11 @@ def main(argv):
         elif line.startswith("trace"):
             # the recorded log, plus fresh executions of the same configuration under new schedules
             base = line.split(" | ")[0].split()
-            run_cases = ["run " + " ".join(base[1:-1]) + " %d" % (int(base[-1]) + k) for k in range(1, 33)]
+            cur = Tk(base, 1)
+            cur.input()
+            rest = base[cur.p:]          # ns ncb reps pseed [fwhere fcell]
+            run_cases = ["run " + " ".join(base[1:cur.p] + rest[:3] + [str(int(rest[3]) + k)] + rest[4:])
+                         for k in range(1, 33)]
             dist_cases, recorded = [], [line]
         else:
             dist_cases, run_cases, recorded = [], [line], []
@@ -521,13 +656,21 @@ def main(argv):
         vlib.Stream("trace", traces, [binary], vlib.driver_cmd(PROP), oracle=oracle_trace, nontrivial=nontrivial_trace,
                     describe=describe_trace, signature=signature, env=env),
     ]
+    if not args.replay:
+        fj = gen_fjob_cases(rng, 6000 if thorough else 800)
+        streams.append(vlib.Stream("featjobs", fj, [binary], None, oracle=oracle_fjob,
+                                   nontrivial=lambda cs: int(cs.split()[2]) >= 2, describe=describe_fjob,
+                                   signature=signature, env=env))
     if tsan_cases:
-        tsan_bin, err = vlib.build_harness("c17-tsan", SRC, opt=("-O1", "-g"), extra_flags=("-fsanitize=thread", "-pthread"))
+        tsan_bin, err = vlib.build_harness("c17-tsan", SRC, opt=("-O1", "-g"), extra_flags=("-fsanitize=thread", "-pthread"),
+                                           extra_srcs=SRC2)
         if tsan_bin is None:
             pre_violation = (pre_violation or "") + "\nTSan harness does not build: " + err
         else:
             streams.append(vlib.Stream("tsan", tsan_cases, [tsan_bin], None, oracle=oracle_tsan, nontrivial=None,
                                        describe=None, signature=signature, env=env))
+            streams.append(vlib.Stream("tsan-featjobs", gen_fjob_cases(rng, 1500), [tsan_bin], None, oracle=oracle_fjob,
+                                       nontrivial=None, describe=describe_fjob, signature=signature, env=env))
     if pre_violation:
         # make the failure visible through the pipeline: an unrunnable stream is a harness failure
         streams.append(vlib.Stream("record-runs", ["run-prepass-failed"], ["/bin/false"], None))
@@ -535,14 +678,22 @@ def main(argv):
     rule = ("dist: meshes of 1..64 (thorough: ..256) cells - 1D paths/cycles/stars/random/disconnected, triangles, quad grids/"
             "strips/random quads, shuffled numberings; subsets all/random/alternating/blocks/single/empty; workers 0..cells+2;"
             " strategies automatic/single/layered/layered_sorted/colored; non-trivial = workers >= 1, strategy != single, "
-            ">= 1 cell. trace: recorded real assemble() runs (1-3 jobs per assembler, scatter/combine on/off, seeded yields/"
-            "sleeps); non-trivial = >= 2 worker threads actually used")
+            ">= 1 cell. trace: recorded real assemble() runs (1-5 jobs per assembler, jobs with/without scatter and combine "
+            "also alternating on one assembler, seeded yields/sleeps and slow-starting threads, in 1 of 5 scatter runs the "
+            "first job's task throws in assemble/scatter/finish/combine); the complete hook-H2 log (fence open/wait/close "
+            "with their okay flag, scatter, combine, throw) of every job is replayed on the Lean machines starting from "
+            "the fence vector the previous job left; non-trivial = >= 2 worker threads actually used. featjobs: real FEAT "
+            "Laplace-matrix / force-vector / function-integral jobs on 1D meshes vs exact rational values")
     return vlib.run_pipeline(PROP, args.tier, args.seed, lean, streams, t0, assumptions=[
         "Index modelled as unbounded Nat",
         "protocol steps are sequentially consistent atomic actions (C++ memory model, std::thread, condition variable "
         "semantics not modelled; ThreadSanitizer observes the real ones in the thorough tier)",
-        "termination needs weak fairness of the scheduler (not modelled; observed: no run timed out)",
-        "tasks do not throw (the okay=false error path of the fences is not modelled)",
+        "fairness: every runnable thread is eventually scheduled and a thread blocked in ThreadFence::wait() returns "
+        "once the fence is open (no lost wake-up of std::condition_variable); under it every real run is a maximal run of "
+        "the model, which is finite and ends in the final state (variant-function theorems)",
+        "error path: a throwing task is modelled at the points where task code runs (constructor, prepare/assemble/"
+        "finish between scatters, scatter, combine); results of a failing job are unspecified, only termination, "
+        "exclusion and recovery of the following jobs are judged",
         "hook H2 (kernel/util/thread.hpp, guard FEAT_VERIF_HOOKS) logs every fence open / wait return / close, so the "
         "whole log is replayed step by step; if the hook were absent the validator would take the fence transitions of "
         "the model eagerly between the logged scatter/combine events"],
